@@ -128,15 +128,113 @@ def callee_orig(t):
     return t[1].get("o") or ""
 
 
+def build_index(path):
+    """One pass over a fact file: byte offsets of every body record plus the small
+    non-body records, so rules can parse only the functions they look at."""
+    idx = {"fns": {}, "adts": [], "statics": [], "meta": None}
+    off = 0
+    with open(path, "rb") as fh:
+        for line in fh:
+            n = len(line)
+            if line.startswith(b'{"fn"'):
+                r = json.loads(line)
+                idx["fns"][r["fn"]] = [off, n, r["gen"], r["kind"], r.get("root"), r.get("trait_item"), r["file"], r["line"]]
+            else:
+                r = json.loads(line)
+                if "adt" in r:
+                    idx["adts"].append(r)
+                elif "static" in r:
+                    idx["statics"].append(r)
+                elif "meta" in r:
+                    idx["meta"] = r
+            off += n
+    tmp = "%s.idx.%d.tmp" % (path, os.getpid())
+    with open(tmp, "w") as fh:
+        json.dump(idx, fh)
+    os.replace(tmp, path + ".idx")
+    return idx
+
+
+def load_index(path):
+    try:
+        if os.path.getmtime(path + ".idx") >= os.path.getmtime(path):
+            with open(path + ".idx") as fh:
+                return json.load(fh)
+    except (OSError, ValueError):
+        pass
+    return build_index(path)
+
+
+class LazyFns:
+    """Mapping fn name -> Fn, parsed on first access from the indexed fact files."""
+
+    def __init__(self):
+        self.index = {}     # name -> (path, off, len, gen, kind, root, trait_item, file, line, is_bin)
+        self.cache = {}
+        self._fh = {}
+
+    def add_unit(self, path, idx, is_bin):
+        for n, e in idx["fns"].items():
+            name = ("bin:" + n) if is_bin else n
+            self.index[name] = (path, e[0], e[1], e[2], e[3], e[4], e[5], e[6], e[7], is_bin)
+
+    def _load(self, name):
+        e = self.index[name]
+        fh = self._fh.get(e[0])
+        if fh is None:
+            fh = self._fh[e[0]] = open(e[0], "rb")
+        fh.seek(e[1])
+        f = Fn(json.loads(fh.read(e[2])))
+        if e[9]:
+            f.name = name
+        self.cache[name] = f
+        return f
+
+    def __contains__(self, name):
+        return name in self.index
+
+    def __getitem__(self, name):
+        f = self.cache.get(name)
+        if f is None:
+            f = self._load(name)
+        return f
+
+    def get(self, name, default=None):
+        if name in self.index:
+            return self[name]
+        return default
+
+    def __iter__(self):
+        return iter(self.index)
+
+    def keys(self):
+        return self.index.keys()
+
+    def __len__(self):
+        return len(self.index)
+
+    def items(self):
+        for n in list(self.index):
+            yield n, self[n]
+
+    def values(self):
+        for n in list(self.index):
+            yield self[n]
+
+    def meta(self, name):
+        """(gen, kind, root, trait_item, file, line) without parsing the body."""
+        e = self.index[name]
+        return e[3], e[4], e[5], e[6], e[7], e[8]
+
+
 class Facts:
     def __init__(self, config="E", crates=None):
         self.dir, self.tree, self.extract_s = factsbuild.facts_dir(config)
         self.config = config
-        self.fns = {}
+        self.fns = LazyFns()
         self.adts = {}
         self.statics = {}
         self.meta = {}
-        self.by_crate = {}
         self._loaded = set()
         self._files = {}
         for n in sorted(os.listdir(self.dir)):
@@ -154,21 +252,17 @@ class Facts:
         path = self._files.get(unit)
         if path is None:
             raise RuntimeError("fact file for %s missing in %s" % (unit, self.dir))
-        with open(path, "rb") as fh:
-            for line in fh:
-                r = json.loads(line)
-                if "fn" in r:
-                    f = Fn(r)
-                    if unit.endswith(".bin"):
-                        f.name = "bin:" + f.name
-                    self.fns[f.name] = f
-                    self.by_crate.setdefault(unit, []).append(f)
-                elif "adt" in r:
-                    self.adts[r["adt"]] = r
-                elif "static" in r:
-                    self.statics[r["static"]] = r
-                elif "meta" in r:
-                    self.meta[unit] = r
+        idx = load_index(path)
+        self.fns.add_unit(path, idx, unit.endswith(".bin"))
+        for r in idx["adts"]:
+            self.adts[r["adt"]] = r
+        for r in idx["statics"]:
+            self.statics[r["static"]] = r
+        self.meta[unit] = idx["meta"]
+
+    def unit_fns(self, unit):
+        path = self._files.get(unit)
+        return [n for n, e in self.fns.index.items() if e[0] == path]
 
     def load_all(self):
         for u in self._files:
@@ -180,11 +274,11 @@ class Facts:
     def find(self, suffix):
         """All functions whose path ends with `suffix` (on a :: boundary)."""
         out = []
-        for n, f in self.fns.items():
+        for n in self.fns:
             if n == suffix or n.endswith("::" + suffix) or n.endswith(suffix) and suffix.startswith("<"):
-                out.append(f)
+                out.append(self.fns[n])
         return out
 
     def closures_of(self, root):
         """Closure bodies whose typeck root is `root` (transitively nested)."""
-        return [f for f in self.fns.values() if f.kind == "Closure" and f.root == root]
+        return [self.fns[n] for n, e in self.fns.index.items() if e[4] == "Closure" and e[5] == root]
